@@ -13,7 +13,7 @@ from zorg.storage.sql import _zid_manager as zm
 from zorg.shared import dates as zdt
 
 hx.stub_loggers()
-hx.set(zm, "json", hx.JsonShim)
+hx.put(zm, "json", hx.JsonShim)
 KNOWN = set(x for x in os.environ.get("XH_KNOWN", "").split(",") if x)
 
 # Spec alphabet, written down independently of _UNSUPPORTED_ZID_CHARS: the 62 ASCII alphanumerics
